@@ -207,7 +207,7 @@ def _model_stream(ctx, cov):
     from .. import families_c15 as O
     m = O.thread_model()
     rng = ctx.sub_rng("model")
-    n = 3000 if ctx.quick else 20000
+    n = 2000 if ctx.quick else 20000
     stats = dict(traces=0, valid=0, malformed=0, events=0, with_lock_errors=0, with_violations=0, serialised=0,
                  rlock_runs=0, rlock_events=0, rlock_max_depth=0)
     d = fw.Distinct()
@@ -236,7 +236,7 @@ def _model_stream(ctx, cov):
                               no_input=True, theorem="C15_serialise_correct vs extracted serialise")
                 break
     # the model lock against a real RLock under real threads
-    for i in range(60 if ctx.quick else 300):
+    for i in range(40 if ctx.quick else 300):
         rec = O.real_rlock_run("%s/%d" % (ctx.seed, i))
         j = O.judge(rec, m)
         stats["rlock_runs"] += 1
@@ -313,9 +313,9 @@ def run(ctx):
         O.install()
         # fork the workers first: from a single-threaded parent that has no model process of its own yet
         ex = Explorer(16)
+        total += _corpus_stream(ctx, cov, findings)       # corpus first
         n_model, d_model = _model_stream(ctx, cov)
         total += n_model
-        total += _corpus_stream(ctx, cov, findings)
         # ---- (i) sequential engine runs of every clean-domain family (wall-clock budget per family)
         seq_plan = [("one_sided", 700, 20000, 5, 70), ("disjoint", 700, 20000, 5, 70), ("conflicts", 400, 10000, 4, 45),
                     ("confinement", 400, 10000, 4, 45), ("restarts", 300, 8000, 6, 70)]
